@@ -134,7 +134,10 @@ class RoundTrip(core.Family):
         import random
         rng = random.Random(inp['seed'])
         tmp = c20.tmpdir()
-        path = os.path.join(tmp, f'rt{core.short_hash(inp)}.gs')
+        # every second collection is written to ONE path per worker process, replacing the file written there before
+        path = os.path.join(tmp, f'rt{core.short_hash(inp)}.gs' if inp['seed'] % 2 else f'reused_{os.getpid()}.gs')
+        if os.path.exists(path):
+            os.remove(path)
         r = dict(op='roundtrip', spec=inp, ok=False, err='', orig=BLANKC, loaded=BLANKC, index=[])
         try:
             coll, base, ids, meta = make_coll(inp, rng)
